@@ -174,3 +174,168 @@ def instances(tier):
             c = dict(S=128, wc=2, ws=2, req=req, resp=resp, nf=1, kinds=REPAIRABLE, horizon=14)
             out.append(Inst(seg_payload, c, budget=600, path_timeout=90, label=label(c)))
     return out
+
+
+# ------------------------------------------------------------------ step lemmas from a symbolic state
+from bacpypes.comm import bind, Server                                        # noqa: E402
+from bacpypes.pdu import Address                                              # noqa: E402
+from bacpypes.app import DeviceInfoCache                                      # noqa: E402
+from bacpypes.appservice import (StateMachineAccessPoint, ClientSSM, ServerSSM,          # noqa: E402
+                                 SEGMENTED_REQUEST, SEGMENTED_RESPONSE)
+from bacpypes.apdu import ConfirmedRequestPDU, ComplexAckPDU, SegmentAckPDU   # noqa: E402
+
+STATE_FIELDS = ("segmentAPDU", "segmentSize", "segmentCount", "invokeID", "state", "sentAllSegments",
+                "segmentRetryCount", "initialSequenceNumber", "actualWindowSize")
+
+
+_BODIES = {}
+
+
+def _body(nsegs, S):
+    """service data in which segment k starts with the two octets (k // 256, k % 256); built once"""
+    if (nsegs, S) not in _BODIES:
+        b = bytearray()
+        for k in range(nsegs):
+            b += bytes([k // 256, k % 256]) + bytes(S - 2)
+        _BODIES[(nsegs, S)] = bytes(b)
+    return _BODIES[(nsegs, S)]
+
+
+for _n in (300, 800):
+    _body(_n, 50)       # at import, outside the engine's tracing
+
+
+class _Low(Server):
+    def __init__(self):
+        Server.__init__(self)
+        self.sent = []
+
+    def indication(self, pdu):
+        self.sent.append(pdu)
+
+
+def _long_transfer_delivers(nsegs, S, response):
+    """witness history through the public API: a real loss-free transfer of nsegs segments between
+    two stacks; True when the receiving application got the submitted octets"""
+    w = World()
+    lan = nl.FaultLAN([], world=w)
+    cdev = nl.make_device("c", 10, maxApduLengthAccepted=S, maxSegmentsAccepted=64)
+    sdev = nl.make_device("s", 20, maxApduLengthAccepted=S, maxSegmentsAccepted=64)
+    client = nl.AppStack(cdev, lan, window=4)
+    server = nl.AppStack(sdev, lan, window=4)
+    big = bytes((i * 7 + i // 251) % 256 for i in range(nsegs * (S - 6) - 20))
+    small = b"\x01"
+    server.pt_result = big if response else small
+    client.request(nl.private_transfer(server.address, small if response else big))
+    w.run()
+    if response:
+        acks = [c for c in client.confirmations if isinstance(c, ConfirmedPrivateTransferACK)]
+        return bool(acks) and bytes(nl.payload_of(acks[0], 'resultBlock')) == big
+    return bool(server.pt_seen) and bytes(nl.payload_of(server.pt_seen[0], 'serviceParameters')) == big
+
+
+@meta(bounds="a real ClientSSM (segmented request) / ServerSSM (segmented response) whose segmentation state is set to the "
+             "situation 'segments 0..base-1 acknowledged, window base..base+win-1 sent' for a symbolic absolute position "
+             "base (inside the instance's band lo..hi: bands at the start and around every wrap of the sequence number) in a "
+             "transfer of nsegs segments, window 1..8 symbolic; one "
+             "segment-ack for the last segment of the window is delivered",
+      outside="segment sizes other than S (the slice arithmetic is linear in S), negative acks (seg_payload covers them "
+              "within one sequence-number cycle)",
+      stubs=["fresh singletons per path", "virtual clock", "state fields of SSM set directly (the anchors the property names); "
+             "a counterexample counts only if a real loss-free transfer of that many segments also fails (witness history, "
+             "run under plain replay)"])
+def seg_step(d, side, nsegs, S, lo=0, hi=None):
+    w = World()
+    smap = StateMachineAccessPoint(None, DeviceInfoCache())
+    low = _Low()
+    bind(smap, low)
+    smap.segmentationSupported = 'segmentedBoth'
+    smap.proposedWindowSize = 8
+    peer = Address(9)
+    if side == "client":
+        tr = ClientSSM(smap, peer)
+        smap.clientTransactions.append(tr)
+        apdu = ConfirmedRequestPDU(18)
+        apdu.apduInvokeID = 7
+        state = SEGMENTED_REQUEST
+    else:
+        tr = ServerSSM(smap, peer)
+        smap.serverTransactions.append(tr)
+        apdu = ComplexAckPDU(18, 7)
+        state = SEGMENTED_RESPONSE
+    for f in STATE_FIELDS:
+        if not hasattr(tr, f):
+            d.note(skipped="state field %s not present" % f)
+            d.reach()
+            return          # refactored away: the scenario harness still decides the property within its bounds
+    apdu.pduData = bytearray(_body(nsegs, S))
+    base = d.int(lo, nsegs - 2 if hi is None else hi, 'base')
+    win = d.int(1, 8, 'window')
+    d.assume(base + win <= nsegs - 1)       # the window does not contain the last segment
+    tr.segmentAPDU, tr.segmentSize, tr.segmentCount, tr.invokeID = apdu, S, nsegs, 7
+    tr.state, tr.sentAllSegments, tr.segmentRetryCount = state, False, 0
+    tr.retryCount = 0
+    tr.initialSequenceNumber = base % 256
+    tr.actualWindowSize = win
+    ackseq = (base + win - 1) % 256
+    ack = SegmentAckPDU(0, 1 if side == "client" else 0, 7, ackseq, win)
+    ack.pduSource = peer
+    if side == "client":
+        tr.confirmation(ack)
+    else:
+        tr.indication(ack)
+    nxt = base + win
+    if not low.sent:
+        raise Violation("nothing-sent-after-ack", base=base, window=win)
+    if len(low.sent) > win:
+        raise Violation("window-exceeded", sent=len(low.sent), window=win)
+    for j, f in enumerate(low.sent):
+        want = nxt + j
+        if f.apduSeq != want % 256:
+            raise Violation("sequence-number", got=f.apduSeq, want=want % 256)
+        got = f.pduData[0] * 256 + f.pduData[1]
+        if got != want:
+            wrapped = want >= 256
+            if not d.symbolic and _long_transfer_delivers(want + 2, S + 6, side == "server"):
+                # no real history shows it: the assumed pre-state is not reachable, nothing to report
+                continue
+            raise Violation("wrong-segment-after-ack", side=side, wrapped=wrapped,
+                            carries=got, expected=want, base=base, window=win)
+        if f.apduMor != (want < nsegs - 1):
+            raise Violation("more-follows", index=want)
+    d.reach()
+
+
+@meta(bounds="a, b in 0..255 and window 1..127 symbolic", outside="nothing (the whole domain of the function)")
+def in_window(d):
+    w = World()
+    smap = StateMachineAccessPoint(None, DeviceInfoCache())
+    tr = ClientSSM(smap, Address(9))
+    a, b, win = d.int(0, 255, 'a'), d.int(0, 255, 'b'), d.int(1, 127, 'window')
+    tr.actualWindowSize = win
+    got = tr.in_window(a, b)
+    # reference: a is one of the `win` sequence numbers starting at b, modulo 256
+    diff = a - b
+    if diff < 0:
+        diff += 256
+    want = diff < win
+    if bool(got) != want:
+        raise Violation("in-window", a=a, b=b, window=win, got=bool(got))
+    d.reach()
+
+
+_base_instances = instances
+
+
+def instances(tier):
+    out = _base_instances(tier)
+    q = tier == "quick"
+    # every position forks (slicing at a symbolic offset): bands at the start and around each wrap of the
+    # sequence number
+    bands = [(0, 30), (236, 262)] if q else [(0, 40), (230, 275), (490, 530), (760, 780)]
+    for side in ("client", "server"):
+        for (lo, hi) in bands:
+            out.append(Inst(seg_step, dict(side=side, nsegs=300 if q else 800, S=50, lo=lo, hi=hi),
+                            budget=80 if q else 600, label="%s,base%d-%d" % (side, lo, hi)))
+    out.append(Inst(in_window, {}, budget=60))
+    return out
